@@ -21,7 +21,7 @@ def jobs(tier, seed):
     def add(entry, cyc, ex, strat, dirbc, nu1, nu2, lev3, geo, prof, fgs, diff=False):
         J.append(dict(entry=entry, args=[cyc, ex, strat, dirbc, nu1, nu2, lev3, geo, prof, fgs],
                       label=f'{entry[2:]} cycle={"VWF"[cyc]} ex={ex} strategy={strat} dirbc={dirbc} nu=({nu1},{nu2}) levels={3 if lev3 else 2} geo={geo} prof={prof} fgs={fgs}',
-                      cls=entry[2:], reach=['setup-done', 'cycle-done'], eager=False, libm_small=True, diff=diff, batch=12, witness=False))
+                      cls=entry[2:], reach=['setup-done', 'cycle-done'], eager=False, libm_small=True, diff=diff, batch=12, witness=('lazy' if (lev3 and entry == 'h_coarse_correction') else False), solver_budget_quick=150))
     if q:
         for ex in (0, 1):
             for dirbc in (0, 1):
@@ -41,6 +41,10 @@ def jobs(tier, seed):
         # three levels: the recursive branches of the F and W cycles (stale scratch vectors on the intermediate level)
         add('h_fixed_point', 2, 0, 0, 0, 1, 1, 1, 0, 0, 0)
         add('h_fixed_point', 1, 1, 1, 1, 1, 1, 1, 0, 0, 0)
+        # three levels, no smoothing: the recursive branch against u + P M R(f - A u) (M = the next level's plain cycles from a zero start)
+        add('h_coarse_correction', 2, 1, 0, 0, 0, 0, 1, 0, 0, 0)
+        add('h_coarse_correction', 1, 0, 1, 1, 0, 0, 1, 0, 0, 0)
+        add('h_coarse_correction', 0, 2, 1, 0, 0, 0, 1, 0, 0, 0)
         add('h_fixed_point', 0, 1, 0, 0, 1, 1, 1, 0, 0, 0)
         add('h_fixed_point', 2, 2, 1, 0, 1, 1, 1, 0, 0, 0)
     else:
